@@ -2,7 +2,7 @@
 """Confirm a seeded change and run the property's check against it, in a scratch worktree (never /repo).
 
 usage: seedtest.py <Cxx> <m1|m2> [tier]
-  source:  /tmp/seeded/<Cxx>/<m>/{patch.diff,*_test.go,README.md}
+  source:  /verif/seeded/<Cxx>-<m>/{patch.diff,*_test.go,README.md}  (or, for a new delivery, /tmp/seeded/<Cxx>/<m>/)
   result:  /verif/seeded/<Cxx>-<m>/{patch.diff,<demo>,README.md,meta.json}
 """
 import json, os, re, shutil, subprocess, sys, time, glob
@@ -10,6 +10,8 @@ import json, os, re, shutil, subprocess, sys, time, glob
 prop, m = sys.argv[1], sys.argv[2]
 tier = sys.argv[3] if len(sys.argv) > 3 else "quick"
 src = f"/tmp/seeded/{prop}/{m}"
+if not os.path.isdir(src):
+    src = f"/verif/seeded/{prop}-{m}"
 tag = f"-seed-{prop}-{m}"
 wt = f"/tmp/wt/run{tag}"
 env = dict(os.environ, GOFLAGS="-mod=mod", GOPROXY="off")
@@ -83,7 +85,7 @@ finally:
     outd = f"/verif/seeded/{prop}-{m}"
     os.makedirs(outd, exist_ok=True)
     for f in glob.glob(f"{src}/*"):
-        if os.path.isfile(f) and not f.endswith((".log", ".txt")):
+        if os.path.isfile(f) and not f.endswith((".log", ".txt")) and os.path.dirname(f) != outd:
             shutil.copy(f, outd)
     if os.path.exists(f"{src}/README.md"):
         txt = open(f"{src}/README.md").read()
